@@ -100,6 +100,10 @@ type XWorkbook struct {
 	Styles    bool
 	DocProps  bool
 	Title     string
+	// Strict writes the ISO/IEC 29500 Strict flavour: the spreadsheetml and
+	// relationship namespaces (and with them every relationship Type URI) are
+	// the purl.oclc.org ones and the workbook declares conformance="strict".
+	Strict bool
 }
 
 // XColName converts a 0-based column index to letters (bijective base 26).
@@ -277,6 +281,21 @@ func (w *XWorkbook) Members(r *rand.Rand) []PartMember {
 		members = append(members,
 			PartMember{Name: "docProps/core.xml", Data: ptCoreProps(w.Title)},
 			PartMember{Name: "docProps/app.xml", Data: ptAppProps("verif-xlsx")})
+	}
+	if w.Strict {
+		for i := range members {
+			n := members[i].Name
+			if !strings.HasSuffix(n, ".xml") && !strings.HasSuffix(n, ".rels") {
+				continue
+			}
+			x := string(members[i].Data)
+			x = strings.ReplaceAll(x, "http://schemas.openxmlformats.org/spreadsheetml/2006/main", "http://purl.oclc.org/ooxml/spreadsheetml/main")
+			x = strings.ReplaceAll(x, "http://schemas.openxmlformats.org/officeDocument/2006/relationships", "http://purl.oclc.org/ooxml/officeDocument/relationships")
+			if n == "xl/workbook.xml" {
+				x = strings.Replace(x, "<workbook ", `<workbook conformance="strict" `, 1)
+			}
+			members[i].Data = []byte(x)
+		}
 	}
 	return members
 }
